@@ -7,6 +7,7 @@ import (
 	"runtime"
 	"strings"
 	"sync"
+	"sync/atomic"
 	"time"
 
 	"github.com/wollac/iota-crypto-demo/pkg/pow"
@@ -67,28 +68,42 @@ func (l *mineLog) sink(kind int, worker uint64, value uint64) {
 	}
 }
 
+// The hook variables are plain package globals read by goroutines that may outlive Mine's return (the watcher), so
+// they are written exactly once, before any Mine call; the log of the current run is reached through an atomic pointer.
+var currentLog atomic.Value // *mineLog (nil pointer = no trace)
+
+func dispatchSink(kind int, worker uint64, value uint64) {
+	if l, _ := currentLog.Load().(*mineLog); l != nil {
+		l.sink(kind, worker, value)
+	}
+}
+
+func init() {
+	pow.VerifSink = dispatchSink
+	powv2.VerifSink = dispatchSink
+}
+
 var mineMu sync.Mutex // the sinks are package globals: one traced Mine at a time
 
 // tracedMine runs one Mine call with the hook sink installed and returns the trace op arguments.
 // cancelAfter < 0: never cancel; 0: cancelled before the call; > 0: cancel after that duration.
-func tracedMine(ver string, workers int, data []byte, target float64, cancelAfter time.Duration) (trace string, result string, leaked int, elapsed time.Duration) {
+// traced = false: no sink is installed (the sink's mutex would add happens-before edges that could hide a race
+// from the race detector, and slows the workers down).
+func tracedMine(ver string, workers int, data []byte, target float64, cancelAfter time.Duration, traced bool) (trace string, result string, leaked int, elapsed time.Duration) {
 	mineMu.Lock()
 	defer mineMu.Unlock()
 	lg := &mineLog{w: workers}
 	before := runtime.NumGoroutine()
 	ctx, cancel := context.WithCancel(context.Background())
 	defer cancel()
-	if ver == "v1" {
-		pow.VerifSink = lg.sink
-		defer func() { pow.VerifSink = nil }()
-	} else {
-		powv2.VerifSink = lg.sink
-		defer func() { powv2.VerifSink = nil }()
+	if traced {
+		currentLog.Store(lg)
+		defer currentLog.Store((*mineLog)(nil))
 	}
-	var cancelledAt time.Time
+	var cancelledNano int64
 	doCancel := func() {
 		lg.add("ca") // announced before it happens
-		cancelledAt = time.Now()
+		atomic.StoreInt64(&cancelledNano, time.Now().UnixNano())
 		cancel()
 	}
 	if cancelAfter == 0 {
@@ -104,9 +119,9 @@ func tracedMine(ver string, workers int, data []byte, target float64, cancelAfte
 	} else {
 		nonce, err = powv2.New(workers).Mine(ctx, data, uint64(target))
 	}
-	returned := time.Now()
-	if !cancelledAt.IsZero() && returned.After(cancelledAt) {
-		elapsed = returned.Sub(cancelledAt)
+	returned := time.Now().UnixNano()
+	if c := atomic.LoadInt64(&cancelledNano); c != 0 && returned > c {
+		elapsed = time.Duration(returned - c)
 	}
 	// give the watcher a moment to finish, then stop collecting
 	deadline := time.Now().Add(200 * time.Millisecond)
@@ -138,7 +153,24 @@ func init() {
 	// claim the model must confirm
 	execs["mine.trace"] = func(a []string) string { return "accepted " + a[2] }
 	execs["mine.runtime"] = func(a []string) string { return a[0] } // "ok" or a description of what went wrong
+	execs["mine.note"] = func(a []string) string { return "noted" }
 	gens["C13"] = genC13
+}
+
+// mineRuntime: what the model cannot exhibit is checked directly — goroutines still alive 200 ms after the
+// return, more than 2 s between cancel() and the return, an unexpected error, ErrCancelled without a cancel.
+func mineRuntime(result string, leaked int, elapsed time.Duration, cancels bool) string {
+	switch {
+	case leaked > 0:
+		return fmt.Sprintf("goroutines-leaked:%d", leaked)
+	case elapsed > 2*time.Second:
+		return fmt.Sprintf("slow-cancel:%s", elapsed)
+	case strings.HasPrefix(result, "error:"):
+		return result
+	case result == "cancelled" && !cancels:
+		return "cancelled-without-cancel"
+	}
+	return "ok"
 }
 
 func genC13(g *G) {
@@ -178,22 +210,17 @@ func genC13(g *G) {
 				continue // v2 returns immediately for target 0 without starting anything
 			}
 			data := g.r.bytes(g.r.intn(10))
-			trace, result, leaked, elapsed := tracedMine(sc.ver, sc.workers, data, sc.target, sc.cancel)
+			// the same scenario without the trace sink: outcome, goroutine accounting, time to return after cancel
+			_, result0, leaked0, elapsed0 := tracedMine(sc.ver, sc.workers, data, sc.target, sc.cancel, false)
+			g.emit("mine.runtime", mineRuntime(result0, leaked0, elapsed0, sc.cancel >= 0))
+			trace, result, leaked, elapsed := tracedMine(sc.ver, sc.workers, data, sc.target, sc.cancel, true)
 			if len(trace) > 400000 {
 				// very long mining traces: keep the op small by not replaying them (rare; counted in runtime)
-				g.emit("mine.runtime", "trace-too-long")
+				g.emit("mine.note", "trace-too-long")
 				continue
 			}
 			g.emit("mine.trace", itoa(sc.workers), trace, result)
-			rt := "ok"
-			if leaked > 0 {
-				rt = fmt.Sprintf("goroutines-leaked:%d", leaked)
-			} else if elapsed > 2*time.Second {
-				rt = fmt.Sprintf("slow-cancel:%s", elapsed)
-			} else if strings.HasPrefix(result, "error:") {
-				rt = result
-			}
-			g.emit("mine.runtime", rt)
+			g.emit("mine.runtime", mineRuntime(result, leaked, elapsed, sc.cancel >= 0))
 		}
 	}
 }
